@@ -78,8 +78,10 @@ def resizer_sets(facts, fns):
     return out, direct
 
 
-def analyse_program(facts, rounds=8, param_fns=None):
-    key = (facts.view, facts.dir)
+def analyse_program(facts, rounds=8, param_fns=None, files=None):
+    """files=None: the library core (CORE_FILES); files=(relpaths): a self-contained sub-program such as one vendored emulator core
+    (every function of those files is a root, static functions take their parameter ranges from the call sites inside the files)"""
+    key = (facts.view, facts.dir, tuple(files or ()))
     if key in _cache:
         return _cache[key]
     # on-disk cache beside the facts (keyed by the tree hash through facts.dir and by the engine sources)
@@ -87,6 +89,7 @@ def analyse_program(facts, rounds=8, param_fns=None):
     h = hashlib.sha256()
     for f in ('e2.py', 'e2prog.py', 'core.py', 'logic.py'):
         h.update(open(os.path.join(os.path.dirname(os.path.abspath(__file__)), f), 'rb').read())
+    h.update(repr(tuple(files or ())).encode())
     pk = os.path.join(facts.dir, 'e2-%s.pkl' % h.hexdigest()[:16])
     if os.path.exists(pk):
         try:
@@ -96,15 +99,19 @@ def analyse_program(facts, rounds=8, param_fns=None):
         except Exception:
             pass
     t0 = time.time()
-    fns = core_functions(facts)
-    if len(fns) < 200:
+    fns = core_functions(facts) if files is None else [f for f in facts.all_fns() if f.relfile() in files and f.tree is not None]
+    if files is None and len(fns) < 200:
         raise build.AnalysisBroken('E2: only %d core functions found' % len(fns))
+    if files is not None and not fns:
+        raise build.AnalysisBroken('E2: no function found in %s' % (files,))
     # dead code (e.g. the single-song XMI converter that is only mentioned in a (void) cast) contributes neither stores nor call sites
     by_name = collections.defaultdict(list)
     for f in facts.all_fns():
         by_name[f.name].append(f)
     reach = set()
     work = [f for f in facts.all_fns() if f.d.get('extern_c') or f.d.get('virt') or f.d.get('ctor') or short(f.name).startswith('~') or short(f.name).startswith('operator')]
+    if files is not None:
+        work = list(fns)
     while work:
         f = work.pop()
         k = (f.name, f.sig)
@@ -131,6 +138,8 @@ def analyse_program(facts, rounds=8, param_fns=None):
     field_ranges = {}
     param_ranges = {}
     internal = {f.name for f in fns if not f.d.get('extern_c') and not f.d.get('virt') and (f.d.get('cls') in ('OPNMIDIplay', 'OPN2', 'OPNMIDIplay::MIDIchannel', 'OPNMIDIplay::OpnChannel') or not f.d.get('linkage_external'))}
+    if files is not None:
+        internal = {f.name for f in fns if not f.d.get('virt') and not f.d.get('linkage_external')}
     # functions whose address is taken (callbacks) keep type ranges
     # Inductive-invariant iteration for the relational facts: start optimistic (every integer parameter of an internal function and
     # every integer field is assumed validated against the tracked containers) and remove what some call site / store does not
